@@ -471,7 +471,7 @@ func runFuzz(id string, d time.Duration) (execs int64, vs []harness.Violation, i
 	defer os.RemoveAll(cache)
 	ctx, cancel := context.WithTimeout(context.Background(), d+5*time.Minute)
 	defer cancel()
-	args := []string{"test", "-tags", "verif", "-run", "^$", "-fuzz", "^FuzzOracle$", "-fuzztime", d.String(), "-test.fuzzcachedir=" + cache, "./props"}
+	args := []string{"test", "-tags", "verif", "-run", "^$", "-fuzz", "^FuzzOracle$", "-fuzztime", d.String(), "./props", "-test.fuzzcachedir=" + cache} // the package must come before the -test.* flag: go test stops parsing its own arguments there
 	cmd := exec.CommandContext(ctx, "go", args...)
 	cmd.Dir = root()
 	cmd.Env = append(goEnv(), "VERIF_PROP="+id, "VERIF_ROOT="+root(), "VERIF_TIER=thorough")
